@@ -266,7 +266,8 @@ func getFeatureLookupsWithVar(table *font.Layout, featureIndex uint16, variation
 			return sub.AlternateFeature.LookupListIndices
 		}
 	}
-	return nil
+	// no substitute for this feature: it keeps its default lookups
+	return table.Features[featureIndex].LookupListIndices
 }
 
 // tests whether a specified lookup index in the specified face would
